@@ -468,7 +468,8 @@ func rangeVerdict(s string, ok bool) string {
 	return verdict(ok)
 }
 
-var c09MutChars = []byte("0a-_.:/ +x1Z|\t")
+// (with control characters whose codes differ from those of a letter, a digit, '-' and '.' in one bit)
+var c09MutChars = []byte("0a-_.:/ +x1Z|\t\r\x10\x0e\x19\x7f\x00@")
 
 func c09Mutations(valid []string) []string {
 	seen := map[string]bool{}
